@@ -4,8 +4,22 @@
    (range based, no knowledge of the draws). *)
 From Coq Require Import List NArith ZArith.
 From AnyTLS Require Import Bytes Cmd Generated Frame FrameProofs Text Padding PaddingProofs.
+From AnyTLS Require Conc ConcInv ConcLin.
 Import ListNotations.
 Open Scope N_scope.
+
+(* part (d), ordering under concurrent writers: on the interleaving model of the write path (Model/Conc.v), for
+   ALL programs and ALL schedules, while the transport has not failed the n-th burst that reaches the transport
+   was numbered client_pkt_start + n + 1 -- so, by C05_index / C05_packet below, line n+1 of the scheme shaped it *)
+Theorem C05_order : forall progs buf pend sched n i h,
+  let s := Conc.run (Conc.init progs buf pend) sched in
+  ConcLin.calm s -> nth_error (Conc.wire s) n = Some (i, h) -> i = (client_pkt_start + N.of_nat n + 1)%N.
+Proof.
+  intros progs buf pend sched n i h s C.
+  apply (proj2 (ConcLin.run_idx_ok client_pkt_start sched _ (ConcInv.inv_init progs buf pend)
+                  (ConcLin.idx_ok_init progs buf pend) C)).
+Qed.
+Print Assumptions C05_order.
 
 (* whatever the shaping loop writes for line k is accepted by the reference acceptor for line k *)
 Theorem C05_model_accepted : forall raw sc k draws p ws,
